@@ -3,13 +3,17 @@ import copy, io
 from formats import manifest_common as mc
 
 KIND = "extra_files"
-FILES = ["GPL", "EULA", "README.md", "RPM-GPG-KEY-redhat-release", "media.repo"]
+FILES = ["GPL", "EULA", "README.md", "RPM-GPG-KEY-redhat-release", "media.repo",
+         "READ ME", "\u00fcn\u00ef\U0001f600", "None", ".hidden", "x" * 300, "a\tb", 'q"f', "0", "gpl", "Gpl"]
 DIRS = ["", "Server/x86_64/os/", "Server/x86_64/os2/", "a/b/", "a/bc/", "a/b/c/", "docs/",
         # the base re-occurs inside / at the end of the path; repeated components
-        "Server/x86_64/os/docs/Server/x86_64/os/", "os/repos/os/", "a/a/a/", "a/b/a/b/", "a/a/b/a/a/", "x/os/x/os/"]
-CK_TYPES = ["md5", "sha1", "sha256", "SHA256", "Sha512"]
+        "Server/x86_64/os/docs/Server/x86_64/os/", "os/repos/os/", "a/a/a/", "a/b/a/b/", "a/a/b/a/a/", "x/os/x/os/",
+        # audit A1/A3
+        "./", "a//b/", "a/../b/", "my docs/", "\u00fcn\u00ef/", "A/B/", "a/b//"]
+CK_TYPES = ["md5", "sha1", "sha256", "SHA256", "Sha512", "", "sha 256", "\uff33\uff28\uff21", "None", "MD5"]
+CK_VALUES = ["", " ", "None", "\U0001f600", 'q"v', "f" * 300, "ABCDEF", "abcdef"]
 BAD_CHECKSUMS = [None, "sha256:abc", [["sha256", "abc"]], 5]
-SIZES = [0, 1, 18092, 2 ** 32 + 5, 2 ** 60 + 1]
+SIZES = [0, 1, 18092, 2 ** 32 + 5, 2 ** 60 + 1, -1, 2 ** 31, 2 ** 32 + 7, 2 ** 53 + 1, 2 ** 63 - 1, 10 ** 7, 10 ** 8, True, False, 1.5, -0.5, None]
 
 
 def mapping(obj):
@@ -25,7 +29,8 @@ def add(obj, op):
 
 
 def valid_op(rng, variant, arch):
-    cks = dict((t, "%032x" % rng.getrandbits(128)) for t in rng.sample(CK_TYPES, rng.choice([1, 1, 2, 3])))
+    cks = dict((t, "%032x" % rng.getrandbits(128) if rng.random() < 0.9 else rng.choice(CK_VALUES))
+               for t in rng.sample(CK_TYPES, rng.choice([0, 1, 1, 2, 3, len(CK_TYPES)])))          # audit A10: empty, one, many
     return {"variant": variant, "arch": arch, "path": rng.choice(DIRS) + rng.choice(FILES), "size": rng.choice(SIZES),
             "checksums": cks, "expect": {}, "why": "valid"}
 
@@ -63,10 +68,8 @@ def mutated_op(rng, base):
 
 def gen_ops(rng, tier, n=None, valid_only=False):
     n = n or rng.choice([1, 3, 5, 8] + ([20, 40] if tier != "quick" else [12]))
-    arches = mc.arches(valid=False)
-    start = rng.randrange(len(arches))
-    my_arches = [arches[(start + 13 * i) % len(arches)] for i in range(rng.choice([1, 2, 3]))]
-    variants = rng.sample(mc.VARIANTS, rng.choice([1, 2, 3]))
+    my_arches = mc.next_arches(rng.choice([1, 2, 3]), valid=False)
+    variants = mc.pick_variants(rng, rng.choice([1, 2, 3]))
     ops, valid = [], []
     for i in range(n):
         r = rng.random()
@@ -83,6 +86,9 @@ def gen_ops(rng, tier, n=None, valid_only=False):
         if op.get("why") in ("valid", "repeat"):
             valid.append(op)
         ops.append(op)
+        if op.get("expect") == "refuse" and not valid_only and rng.random() < 0.4 and valid:
+            rep = dict(rng.choice(valid)); rep["why"] = "repeat"          # audit B2: failed -> repaired -> success
+            ops.append(rep)
     return ops
 
 
@@ -126,7 +132,7 @@ def oracle_step(before, after, op, out):
     exp = copy.deepcopy(before)
     lst = exp.setdefault(op["variant"], {}).setdefault(op["arch"], [])
     if isinstance(lst, list):
-        lst.append({"file": op["path"], "size": op["size"], "checksums": mc.enc(op["checksums"])})
+        lst.append({"file": op["path"], "size": mc.enc(op["size"]), "checksums": mc.enc(op["checksums"])})
     if exp != after:
         return {"kind": "frame-or-content", "observed": {"before": before, "after": after},
                 "required": "only [variant][arch] changes: the record {file, size, checksums} is appended"}
